@@ -176,7 +176,7 @@ class CellConversion:
 
         if not isLeaf(p_tree):
             operator, *args = p_tree
-            if operator == '^':
+            if operator in ('^', '@'):
                 # complements stay complements at this stage (they will be
                 # handled later)
                 return p_tree
@@ -406,6 +406,10 @@ class CellConversion:
                 return ['*', surfaces[0], -surfaces[0]]
             new_geom = self.pot_complement(cell.geometry)
             return new_geom.inverse()
+        if tree[0] == '@':
+            # doubly complemented cell (#n inside a #(...) expression)
+            cell = self.dic_cell_mcnp[int(tree[1])]
+            return self.pot_complement(cell.geometry)
         new_tree = [tree[0]]
         new_tree.extend(self.pot_complement(node) for node in tree[1:])
         result = GeomExpression(new_tree)
